@@ -384,6 +384,137 @@ def oracle_geobox_cover(C, H, O, gs, sp, shape, aff6, npts, seed):
     C.oracle(bad is None, "geobox-bbox-query-misses-footprint-point", case, str(bad), sig="tiles|geobox-boundingbox")
 
 
+# ----------------------------------------------------------------------------- deterministic thread step scheduler
+def run_threads(H, O, gs, queries, schedule, timeout=5.0):
+    """REAL threads, each consuming one query generator over ONE shared cache; the cache is a dict whose `get` / `__setitem__`
+    (the operations of the user-supplied collaborator) are synchronisation points: a thread performs its next dictionary operation
+    only when the schedule names it (entries naming a finished thread are skipped); when the schedule is used up the threads run
+    to completion one after the other.  Fully deterministic: between two grants every thread is parked or finished.
+    Returns (per-thread result or exception text, cache)."""
+    import threading
+
+    n = len(queries)
+    cv = threading.Condition()
+    st = {"waiting": [False] * n, "done": [False] * n, "grant": None, "free": False, "dead": False}
+    ids: dict = {}
+
+    def sync():
+        i = ids.get(threading.get_ident())
+        if i is None:
+            return
+        with cv:
+            if st["free"]:
+                # free-running phase: strictly one thread at a time, in thread order
+                return
+            st["waiting"][i] = True
+            cv.notify_all()
+            if not cv.wait_for(lambda: st["grant"] == i or st["dead"], timeout):
+                st["dead"] = True
+            st["grant"] = None
+            st["waiting"][i] = False
+            cv.notify_all()
+
+    class Cache(dict):
+        def get(self, k, default=None):
+            sync()
+            return dict.get(self, k, default)
+
+        def __setitem__(self, k, v):
+            sync()
+            dict.__setitem__(self, k, v)
+
+    cache = Cache()
+    results: list = [None] * n
+
+    def body(i):
+        ids[threading.get_ident()] = i
+        try:
+            d = queries[i]
+            if d[0] == "B":
+                it = gs.tiles(O.BoundingBox(*d[2], H.CRS if d[1] else "epsg:4326"), cache)
+            else:
+                it = gs.tiles_from_geopolygon(H.mk_poly(O, d[1]), cache)
+            results[i] = [(tuple(map(int, k)), gb) for k, gb in H.ltiles(it)]
+        except Exception as e:  # pylint: disable=broad-except
+            results[i] = "ERR:" + type(e).__name__
+        finally:
+            with cv:
+                st["done"][i] = True
+                cv.notify_all()
+
+    ths = [threading.Thread(target=body, args=(i,), daemon=True) for i in range(n)]
+    for th in ths:
+        th.start()
+    quiet = lambda: all(st["waiting"][j] or st["done"][j] for j in range(n))
+    with cv:
+        for tid in list(schedule) + [None]:
+            if not cv.wait_for(lambda: quiet() or st["dead"], timeout) or st["dead"]:
+                st["dead"] = True
+                break
+            if tid is None:
+                break
+            if tid >= n or st["done"][tid]:
+                continue
+            st["grant"] = tid
+            cv.notify_all()
+            if not cv.wait_for(lambda: st["grant"] is None or st["dead"], timeout):
+                st["dead"] = True
+                break
+        # run to completion, one thread after the other
+        for tid in range(n):
+            while not st["done"][tid] and not st["dead"]:
+                if not cv.wait_for(lambda: quiet() or st["dead"], timeout):
+                    st["dead"] = True
+                    break
+                if st["done"][tid]:
+                    break
+                st["grant"] = tid
+                cv.notify_all()
+                if not cv.wait_for(lambda: st["grant"] is None or st["dead"], timeout):
+                    st["dead"] = True
+        if st["dead"]:
+            cv.notify_all()
+    for th in ths:
+        th.join(timeout)
+    if st["dead"]:
+        raise RuntimeError("step scheduler timed out")
+    return results, dict(cache)
+
+
+def thr_s(H, results, cache) -> str:
+    parts = [r if isinstance(r, str) else list_s([k for k, _ in r], H.idx_s) for r in results]
+    return "|".join(parts) + " cache=" + list_s(sorted((tuple(map(int, k)) for k in cache), key=H.key_yx), H.idx_s)
+
+
+def oracle_threads(C, H, O, gs, sp, queries, schedule):
+    """under this interleaving every thread got exactly what its query yields alone (with the geobox of each index), and the
+    shared cache maps indices to their own geoboxes"""
+    bad = None
+    try:
+        results, cache = run_threads(H, O, gs, queries, schedule)
+        for d, r in zip(queries, results):
+            if d[0] == "B":
+                ref = [tuple(map(int, k)) for k, _ in H.ltiles(gs.tiles(O.BoundingBox(*d[2], H.CRS)))] if d[1] else "ERR:AssertionError"
+            else:
+                ref = [tuple(map(int, k)) for k, _ in H.ltiles(gs.tiles_from_geopolygon(H.mk_poly(O, d[1])))]
+            got = r if isinstance(r, str) else [k for k, _ in r]
+            if got != ref:
+                bad = f"thread with query {d[0]} got {got if isinstance(got, str) else got[:8]} under schedule {list(schedule)}, alone it yields {ref if isinstance(ref, str) else ref[:8]}"
+                break
+            if not isinstance(r, str):
+                for k, gb in r:
+                    if gb != gs.tile_geobox(k):
+                        bad = f"tile {k} came with {gb!r}"
+        for k, gb in cache.items():
+            if bad is None and gb != gs.tile_geobox(k):
+                bad = f"cache[{k}] = {gb!r} is not the geobox of that index"
+    except Exception as e:  # pylint: disable=broad-except
+        bad = repr(e)
+    C.oracle(bad is None, "shared-cache-interleaving-changes-result",
+             {"op": "a:thr", "grid": sp.tok(), "gens": [[d[0], d[1] if d[0] == "P" else bool(d[1]), list(d[2]) if d[0] == "B" else None] for d in queries],
+              "schedule": list(schedule)}, str(bad), sig="threads|step-scheduler")
+
+
 def oracle_specials(C, H, O, gs, sp, q):
     """bounds containing NaN / ±inf are never answered with tiles"""
     try:
@@ -699,6 +830,112 @@ def run_args(R, O, H, lattice, presets):
         f = oy + rng.uniform(-30, 30) * float(sp.szy)
         oracle_geobox_cover(R, H, O, sp.make(O), sp, (rng.randint(1, 300), rng.randint(1, 300)), (a, b, c, d, e, f), 12, rng.randint(0, 10**6))
 
+    # --- the whole float domain: non-finite / overflowing sizes, resolutions, origins, coordinates; float-valued indices and
+    #     integer indices beyond 2^53 (model: Model/C14Ext.lean; binary64 with overflow in F mode, exact in E mode on short dyadics)
+    def short(v):
+        if isinstance(v, int):
+            return abs(v) < 2**20
+        return isinstance(v, float) and math.isfinite(v) and abs(v) < 2**20 and (Fraction(v) * 1024).denominator == 1
+
+    def kind(v):
+        if isinstance(v, int):
+            return "huge" if abs(v) > 10**200 else "finite"
+        return "nan" if v != v else "inf" if math.isinf(v) else "huge" if abs(v) > 1e200 else "tiny" if 0 < abs(v) < 1e-200 else "finite"
+
+    szs = [1.0, 2.5, inf, -inf, nan, 1e308, 1.7e308, 5e-324, 1e-320, 1e200, 0.0, -2.0]
+    ogs = [0.0, -7.25, inf, -inf, nan, 1e308, -1.7e308]
+    xs = [0.0, 3.75, -11.5, 1e300, -1e308, inf, -inf, nan, 1e-310]
+    ks = [0, 1, -3, 7, 2**53 + 1, -(2**60 + 1), 10**30, 10**400, -10**400, 0.5, -2.25, nan, inf, True]
+    combos = [(sz, o, d) for sz in szs for o in ogs for d in (1, -1)]
+    for sz, o, d in (combos if not R.quick else rng.sample(combos, 60)):
+        for x in (xs if not R.quick else rng.sample(xs, 4)):
+            for m in ("EF" if short(sz) and short(o) and short(x) else "F"):
+                corr(R, f"c14 binx {m} {xf_tok(sz)} {xf_tok(o)} {d} {xf_tok(x)}", lambda: str(O.Bin1D(sz, o, d).bin(x)),
+                     sig=f"bin1d-ext|bin|sz={kind(sz)}|o={kind(o)}|x={kind(x)}")
+        for k in (ks if not R.quick else rng.sample(ks, 5)):
+            for m in ("EF" if short(sz) and short(o) and short(k) else "F"):
+                corr(R, f"c14 itemx {m} {xf_tok(sz)} {xf_tok(o)} {d} {num_tok(k)}",
+                     lambda: (lambda b: guarded(lambda: xf_tok(b[k][0])) + " " + guarded(lambda: xf_tok(b[k][1])))(O.Bin1D(sz, o, d)),
+                     sig=f"bin1d-ext|item|sz={kind(sz)}|o={kind(o)}|k={'int' if isinstance(k, int) else 'float'}-{kind(k) if k == k else 'nan'}")
+    for _ in range(R.pick(60, 600)):
+        x0, x1 = rng.choice(ogs + [1.0, 3.5]), rng.choice(ogs + [1.0, 3.5, 1e308])
+        idx, d = rng.choice([0, 1, -4, 1000, 2**53 + 1, 10**400]), rng.choice([1, -1])
+        for m in ("EF" if all(short(v) for v in (x0, x1)) and abs(idx) < 2000 else "F"):
+            corr(R, f"c14 fsbx {m} {idx} {xf_tok(x0)} {xf_tok(x1)} {d}",
+                 lambda: (lambda b: f"{xf_tok(b.sz)} {xf_tok(b.origin)} {b.direction}")(O.Bin1D.from_sample_bin(idx, (x0, x1), d)), sig="bin1d-ext|from_sample_bin")
+    ress = [1.0, -0.5, 25.0, inf, -inf, nan, 1e306, -1e308, 1e-320]
+    for _ in range(R.pick(120, 1500)):
+        ny, nx = rng.choice([1, 2, 3, 1024, 4000]), rng.choice([1, 3, 1024, 4000])
+        rx, ry = rng.choice(ress), rng.choice(ress)
+        ox, oy = rng.choice(ogs), rng.choice(ogs + [0.0, 0.0])
+        fx, fy = rng.random() < 0.5, rng.random() < 0.5
+        px, py = rng.choice(xs), rng.choice(xs)
+        kx, ky = rng.choice(ks), rng.choice(ks)
+
+        def fgx():
+            gs = O.GridSpec(H.CRS, (ny, nx), O.resxy_(rx, ry), origin=O.xy_(ox, oy), flipx=fx, flipy=fy)
+            A = lambda: gs.tile_geobox((kx, ky)).affine
+            return (f"{xf_tok(gs.tile_size.x)} {xf_tok(gs.tile_size.y)} " + guarded(lambda: H.idx_s(gs.pt2idx(px, py).xy)) + " "
+                    + guarded(lambda: (lambda a: f"{xf_tok(a.c)};{xf_tok(a.f)}")(A())))
+
+        allshort = all(short(v) for v in (rx, ry, ox, oy, px, py, kx, ky))
+        for m in ("EF" if allshort and nx < 10 and ny < 10 else "F"):
+            corr(R, f"c14 gridx {m} {ny} {nx} {xf_tok(rx)} {xf_tok(ry)} {xf_tok(ox)} {xf_tok(oy)} {bool_s(fx)} {bool_s(fy)} {xf_tok(px)} {xf_tok(py)} {num_tok(kx)} {num_tok(ky)}",
+                 fgx, sig=f"gridspec-ext|res={kind(rx)},{kind(ry)}|origin={kind(ox)},{kind(oy)}")
+    # oracle: a grid whose constructor accepted non-finite / overflowing parameters never hands out a tile that claims a finite
+    # footprint overlapping another tile's (the partition property is only claimed for finite grids; here: recorded)
+    for crs_s, tokk in (("epsg:4326", "G"), ("epsg:3577", "P"), ("epsg:3857", "P"), ("epsg:4978", "O")):
+        corr(R, f"c14 dims {tokk}", lambda: " ".join(O.GridSpec(crs_s, (2, 3), 1.0).dimensions), sig="dimensions|" + tokk)
+
+    # --- web tiles: zoom z -> z+1 refinement (theorems web_tiles_children_extent / web_tiles_refinement), oracle on real output
+    for z in range(0, R.pick(12, 23)):
+        try:
+            g0, g1 = O.GridSpec.web_tiles(z), O.GridSpec.web_tiles(z + 1)
+            n = 2**z
+            bad = None
+            for (i, j) in {(0, 0), (n - 1, n - 1), (rng.randrange(n), rng.randrange(n))}:
+                l, b, r, t = H.fbb(g0[i, j].boundingbox)
+                s = Fraction(H.P_WEB) / 10**9
+                for a in (0, 1):
+                    for c in (0, 1):
+                        cl, cb, cr, ct = H.fbb(g1[2 * i + a, 2 * j + c].boundingbox)
+                        T2 = (r - l) / 2
+                        want = (l + a * T2, t - (c + 1) * T2, l + (a + 1) * T2, t - c * T2)
+                        if any(abs(u - v) > s for u, v in zip((cl, cb, cr, ct), want)):
+                            bad = f"child ({2 * i + a},{2 * j + c}) of web tile ({i},{j}) at zoom {z}: {tuple(map(float, (cl, cb, cr, ct)))} expected {tuple(map(float, want))}"
+                        # the child's centre is looked up as the parent at zoom z and as the child at zoom z+1
+                        cx, cy = float((cl + cr) / 2), float((cb + ct) / 2)
+                        if tuple(map(int, g0.pt2idx(cx, cy).xy)) != (i, j) or tuple(map(int, g1.pt2idx(cx, cy).xy)) != (2 * i + a, 2 * j + c):
+                            bad = f"centre of child ({2 * i + a},{2 * j + c}) at zoom {z + 1} is not looked up as parent ({i},{j}) / itself"
+            if abs(Fraction(g1.resolution.x) * 2 - Fraction(g0.resolution.x)) > Fraction(1, 10**9):
+                bad = f"resolution at zoom {z + 1} is not half of zoom {z}"
+        except Exception as e:  # pylint: disable=broad-except
+            bad = repr(e)
+        R.oracle(bad is None, "web-tiles-refinement", {"op": "a:webref", "z": z}, str(bad), sig="web_tiles|refinement")
+
+    # --- threads over one shared cache: EVERY interleaving of the dictionary operations (deterministic step scheduler),
+    #     2 threads x all 2^6 schedules (quick: on 3 grids), 3 threads x sampled ternary schedules
+    for sp in rng.sample(lattice, R.pick(3, 10)):
+        gs = sp.make(O)
+        X = lambda a: float(Fraction(sp.ox) + Fraction(a) * sp.szx)
+        Y = lambda b: float(Fraction(sp.oy) + Fraction(b) * sp.szy)
+        q1 = ("B", True, (X(Fraction(1, 8)), Y(Fraction(1, 8)), X(Fraction(11, 8)), Y(Fraction(5, 8))))      # two tiles
+        q2 = ("B", True, (X(Fraction(9, 8)), Y(Fraction(1, 8)), X(Fraction(19, 8)), Y(Fraction(5, 8))))      # two tiles, one shared with q1
+        tri = H.convex_pts(rng, [(X(Fraction(1, 8)), Y(Fraction(1, 8))), (X(Fraction(15, 8)), Y(Fraction(1, 4))), (X(Fraction(1, 4)), Y(Fraction(7, 8)))])
+        q3 = ("P", tri, None)
+        for queries, scheds in (([q1, q2], list(itertools.product((0, 1), repeat=6))),
+                                ([q1, q3], list(itertools.product((0, 1), repeat=6))[:: R.pick(4, 1)]),
+                                ([q1, q2, q3], [tuple(rng.randrange(3) for _ in range(8)) for _ in range(R.pick(12, 120))])):
+            for sc in scheds:
+                tok = sched_tok(queries, [str(i) for i in sc])
+                for m in "E":
+                    corr(R, f"c14 thr {m} {sp.tok()} {tok}", lambda: thr_s(H, *run_threads(H, O, gs, queries, sc)),
+                         sig=f"threads|step-scheduler|{len(queries)}-threads")
+                oracle_threads(R, H, O, gs, sp, queries, sc)
+    R.assumptions.append("threads over a shared geobox_cache: every interleaving of the cache's get/__setitem__ operations of 2 threads (2^6 schedules) "
+                         "is enumerated deterministically on the real code (theorem threads_transparent covers any number of threads and any "
+                         "schedule of the model); interleavings INSIDE tile_geobox and between other statements are only sampled by the stress")
+
     # how lazily the real generators work is recorded, not judged (the model's `generator_next_cache_keys` describes today's code:
     # nothing runs before the first next(), each next() touches the cache for the tiles it pulls only)
     try:
@@ -845,6 +1082,23 @@ def replay_args(C, O, H, case) -> None:
     elif op == "a:gjboth":
         sp = H.Spec.from_tok(case["grid"].split(" "))
         oracle_geojson_both(C, H, O, sp.make(O), sp, [tuple(f(v) for v in p) for p in case["tri"]], tuple(f(v) for v in case["bbox"]))
+    elif op == "a:webref":
+        z = case["z"]
+        g0, g1 = O.GridSpec.web_tiles(z), O.GridSpec.web_tiles(z + 1)
+        n = 2**z
+        for (i, j) in ((0, 0), (n - 1, n - 1), (n // 2, n // 3)):
+            l, b, r, t = H.fbb(g0[i, j].boundingbox)
+            for a in (0, 1):
+                for c in (0, 1):
+                    cl, cb, cr, ct = H.fbb(g1[2 * i + a, 2 * j + c].boundingbox)
+                    T2 = (r - l) / 2
+                    want = (l + a * T2, t - (c + 1) * T2, l + (a + 1) * T2, t - c * T2)
+                    C.oracle(all(abs(u - v) <= Fraction(H.P_WEB) / 10**9 for u, v in zip((cl, cb, cr, ct), want)), "web-tiles-refinement", case,
+                             f"child ({2 * i + a},{2 * j + c}) of ({i},{j}) at zoom {z}")
+    elif op == "a:thr":
+        sp = H.Spec.from_tok(case["grid"].split(" "))
+        gens = [("B", g[1], tuple(g[2])) if g[0] == "B" else ("P", [tuple(p) for p in g[1]], None) for g in case["gens"]]
+        oracle_threads(C, H, O, sp.make(O), sp, gens, case["schedule"])
     elif op == "a:cover":
         sp = H.Spec.from_tok(case["grid"].split(" "))
         oracle_geobox_cover(C, H, O, sp.make(O), sp, tuple(case["shape"]), tuple(f(v) for v in case["affine"]), case["n"], case["seed"])
